@@ -206,6 +206,12 @@ fn binary_once(rng: &mut Rng, b: &mut Vec<u8>, l: &Layout) -> (&'static str, Str
             }
         }
         let cur = read_le(b, f.off, f.width);
+        if (f.name.ends_with("aux_type") || f.name.ends_with("aux_subtype")) && rng.chance(2, 3) {
+            // another VALID type letter: the value behind it is then read with the wrong width
+            let v = *rng.pick(b"AcCsSiIfZHB") as u64;
+            write_le(b, f.off, 1, v);
+            return ("field:random", format!("{}@{} {:?} -> {:?}", f.name, f.off, cur as u8 as char, v as u8 as char));
+        }
         let (v, class) = special(rng, f.width, cur);
         write_le(b, f.off, f.width, v);
         return (class, format!("{}@{} {cur:#x} -> {v:#x}", f.name, f.off));
